@@ -594,6 +594,21 @@ def check_rule(run, rule, u):
                     kind = "slot" if "static_slot_error" in i.callee else ("stride" if "static_stride_error" in i.callee else "?")
                     vals = [S.value(f, o) for o in i.ops[1:3]]
                     found.setdefault(kind, []).append((vals, i, f))
+        # sibling cross-check: every call site hands over (compile-time offset, installed cell) in the SAME order - the callee names its
+        # parameters `actual` and `expected` and reports them under those names
+        orders = {}
+        for kind, sites in found.items():
+            for vals, i, f in sites:
+                o = "static-first" if vals and vals[0] is not None and vals[0][0] == "const" else "installed-first" if vals and len(vals) > 1 and vals[1] is not None and vals[1][0] == "const" else "?"
+                orders.setdefault(o, []).append((i, f))
+        if len([o for o in orders if o != "?"]) > 1:
+            minority = min((o for o in orders if o != "?"), key=lambda o: len(orders[o]))
+            i0, f0 = orders[minority][0]
+            run.instance(rule, "%s shape=%s: all check_static_offset call sites pass (compile-time, installed) in the same order" % (ns, shape), None, ok=False)
+            run.violation(rule, "method::resolve|check-argument-order|arity%d" % n, "the call sites of check_static_offset disagree on the order of (compile-time offset, installed cell): %s - the error then reports the two numbers under swapped names" % (
+                {o: len(v) for o, v in orders.items()}), i0.where())
+        elif found:
+            run.instance(rule, "%s shape=%s: all check_static_offset call sites pass (compile-time, installed) in the same order" % (ns, shape), None, ok=True)
         want = [("slot", k, 8 * k, ent["slots"][k]) for k in range(n)] + [("stride", k, 8 * (n + k - 1), ent["strides"][k - 1]) for k in range(1, n)]
         for kind, k, off, const in want:
             cell = ("load", sym.mk_add([("global", ss), ("const", off)]))
@@ -645,6 +660,24 @@ def check_static_offset_rule(run, rule, mod):
                     run.violation(rule, "method::check_static_offset|skipped", "a path through check_static_offset returns without comparing the static offset with the installed one (the check depends on more than its arguments)", f.where())
                     continue
                 run.instance(rule, "check_static_offset: every call compares actual with expected: %s" % re.sub(r"so_\w+_\d+::key", "K", f.dname), f.where(), ok=True)
+        # what the error carries: `expected` and `actual` are the function's own two arguments (one each), nothing read from elsewhere
+        S0 = sym.Sym(mod)
+        en = "static_slot_error" if "static_slot_error" in f.dname else "static_stride_error"
+        lo = mod.layout_by_name.get("yorel::yomm2::" + en)
+        if lo:
+            # the error object is the only local aggregate written field by field: offset 0 is the method id, the two other words
+            # are `expected` and `actual`
+            stored = {}
+            for i in f.all_insts():
+                if i.op == "store":
+                    base, off = sym.split_base(S0.value(f, i.ops[1]))
+                    if base is not None and base[0] in ("alloca", "local") and isinstance(off, int) and 0 < off < lo["size"]:
+                        stored[off] = S0.value(f, i.ops[0])
+            okc = len(stored) == 2 and {repr(v) for v in stored.values()} == {repr(("arg", 1)), repr(("arg", 2))}
+            run.instance(rule, "check_static_offset: the error reports the two compared numbers (expected, actual = the function's arguments): %s" % re.sub(r"so_\w+_\d+::key", "K", f.dname), f.where(), ok=okc)
+            if not okc:
+                run.violation(rule, "method::check_static_offset|report", "the %s carries %s: not the two numbers that were compared (the function's own arguments)" % (
+                    en, ", ".join("+%d: %s" % (o, sym.show(v)[:70]) for o, v in sorted(stored.items()))), f.where())
         run.instance(rule, "check_static_offset: mismatch (and only mismatch) reaches the error handler: %s" % re.sub(r"so_\w+_\d+::key", "K", f.dname), f.where(), ok=ok)
         if not ok:
             run.violation(rule, "method::check_static_offset|branch", "check_static_offset does not route exactly the actual != expected outcome to the error handler", f.where())
@@ -676,6 +709,16 @@ def check(run):
             nchk += check_static_offset_rule(run, r2, u["module"])
     if not nchk:
         run.broken.append("no check_static_offset instantiation found under a runtime_checks policy")
+    # a checked policy WITHOUT an error handler (documented: "if it is present ... its error member is called") must still compile and
+    # still stop on a stale offset: the handler call is under `if constexpr`, the abort is not
+    from .. import e3
+    blk, ns = witness.static_method_block("p_noerr", "rr", 0)
+    nu = e3.Unit("c12_noerr", witness.PRELUDE + "\nnamespace yw_reg { yw::pol_classes<yw::p_noerr> r; }\n")
+    one_line = " ".join(re.sub(r"//.*$", "", l) for l in blk.split("\n"))
+    nu.add("must-compile|checked-no-handler", "a method with compile-time offsets under a checked policy that has no error_handler facet compiles", one_line + " int c12_use(yw::A& a, yw::A& b) { return %s::call(a, b); }" % ns, separate=True)
+    for ob, ok, msg in e3.run_unit(run, r2, nu, ndebug=False):
+        if not ok:
+            run.violation(r2, ob["key"], "%s: %s" % (ob["desc"], msg), "include/yorel/yomm2/core.hpp")
     # re-key the walk violations for this property
     for v in run.violations:
         if v["rule"] == r1 and v["key"].startswith("method::"):
